@@ -156,6 +156,7 @@ def check(prop, tier, only=None, verbose=False):
     violations = []
     known_hits = {}
     inconclusive = []
+    divergences = []
     conditions = []
     functions = set()
     samples = []
@@ -188,7 +189,22 @@ def check(prop, tier, only=None, verbose=False):
         elif r['verdict'] == 'inconclusive':
             inconclusive.append('%s %s (paths=%d unknown=%d)' % (cname, j['pins'], r.get('paths', 0), r.get('unknown', 0)))
         for s in r.get('samples', []):
-            if s.get('native') != 'ok' or ('native_reached' in s):
+            if s.get('native') == 'fail':
+                # the engine's model of some library call let this path pass, the real code fails on the same concrete input:
+                # the native run is the authoritative one, so this is a counterexample (and a recorded engine divergence)
+                divergences.append('%s %s: passed symbolically, fails natively: %s' % (cname, json.dumps(s['args'])[:300], (s.get('native_reason') or '')[:300]))
+                conditions[-1]['verdict'] = 'cex'       # never 'confirmed': the model the exhaustion rests on is wrong on this path
+                args = unjson(s['args'])
+                hit = None
+                for f in findings:
+                    if match_finding(f, cname, s.get('native_reason') or '', args):
+                        hit = f
+                        break
+                if hit is not None:
+                    known_hits.setdefault(hit['id'], []).append(s)
+                else:
+                    violations.append({'mod': j['mod'], 'cond': cname, 'args': s['args'], 'reason': s.get('native_reason') or 'fails natively'})
+            elif s.get('native') != 'ok' or ('native_reached' in s):
                 infra.append('%s: symbolic path does not replay natively: %s' % (cname, json.dumps(s)[:600]))
             if len(samples) < 12:
                 samples.append({'condition': cname, 'args': s['args'], 'notes': s.get('notes', []),
@@ -290,6 +306,7 @@ def check(prop, tier, only=None, verbose=False):
                        'solver_s': round(tot['solver_s'], 2)},
             'paths_ignored_by_precondition': tot['ignored'], 'paths_unknown': tot['unknown'],
             'known_findings_reproduced': [l for l in kf_lines],
+            'engine_divergences': divergences[:20],
             'repo': prelude.REPO,
         },
         'assumptions': info.get('assumptions', []),
